@@ -339,8 +339,9 @@ def check(run, only_corpus=None):
     run.rule = ('programs: progen skeletons (bounded-exhaustive, stride-sampled), progen random programs, and the systematic '
                 'context enumeration (each construct of c04_exprs.EXPR_CONSTRUCTS/STMT_CONSTRUCTS in each context of '
                 'EXPR_CONTEXTS/STMT_CONTEXTS, entity-level shapes, lambda entities, malformed directives); configurations: every '
-                'subset of {BUILTIN_FUNCTIONS, EQUALITY_OPERATORS} x recursive in {T,F} (all 8 for option-sensitive constructs '
-                'and in the thorough tier, rotating otherwise). A case = (program, configuration); non-trivial = conversion '
+                'subset of {BUILTIN_FUNCTIONS, EQUALITY_OPERATORS} x recursive in {T,F} (all 8 for entity shapes and in the thorough tier, '
+                'every feature subset for option-sensitive constructs, rotating otherwise) plus two LISTS configurations on programs '
+                'with subscripts/lists (slices.py modelled, lists.py not). A case = (program, configuration); non-trivial = conversion '
                 'succeeded and the function contains at least one overloadable construct; distinct by (program hash, config).')
     run.assumptions += [
         'anno.Basic.SKIP_PROCESSING is never set by a converter (asserted on every snapshot; the models leave it out)',
